@@ -132,6 +132,12 @@ class TrialBackend:
         assert (
             trial.status == Status.paused
         ), f"Cannot resume trial_id {trial_id} from status '{trial.status}', must be '{Status.paused}'"
+        # Results reported until now (in particular, those emitted after the
+        # decision to pause the trial was taken, which are hidden in
+        # :meth:`fetch_status_results`) must not be delivered once the trial
+        # is resumed
+        for trial_result in self._all_trial_results([trial_id]):
+            self._last_metric_seen_index[trial_id] = len(trial_result.metrics)
         self._resume_trial(trial_id)
         if new_config is not None:
             trial.config = new_config
